@@ -485,6 +485,8 @@ def treap_replay(path):
     profile = "sim-rel" if engine == "treapsim-real" else "sim-dbg"
     binary, _ = cargo_build("treapsim", profile)
     env = (rec.get("record") or {}).get("env")
+    if env and env.get("LD_PRELOAD"):
+        clock_shim()
     rc, out, err = run([binary, "replay", path], timeout=3600, env=dict(ENV, **env) if env else None)
     return normalise_replay(rc, out + err, path)
 
@@ -675,6 +677,22 @@ def real_record(cfg, violation):
     }
 
 
+def clock_shim():
+    """Builds (once) the LD_PRELOAD clock seam sim/clockshim/clockshim.c; None when no C compiler
+    is present (the clock runs are then skipped and the evidence says so)."""
+    src = os.path.join(SIM, "clockshim", "clockshim.c")
+    out = os.path.join(TARGET, "clockshim.so")
+    if os.path.exists(out) and os.path.getmtime(out) >= os.path.getmtime(src):
+        return out
+    os.makedirs(TARGET, exist_ok=True)
+    for cc in ("cc", "gcc", "clang"):
+        if shutil.which(cc):
+            p = subprocess.run([cc, "-shared", "-fPIC", "-O2", "-o", out, src, "-ldl"], stdout=subprocess.PIPE, stderr=subprocess.STDOUT, text=True)
+            if p.returncode == 0:
+                return out
+    return None
+
+
 def environment_knobs():
     """Names of environment variables the anchored crates read (std::env::var / var_os with a
     literal name).  The pinned tree reads none; a change that adds a knob (a seed override, a
@@ -739,6 +757,15 @@ def check_c16(tier, seed):
         for value in ("1", "42", "0", "true"):
             for h, n in ((14, 4000), (14, 20_000), (15, 5000), (10, 5000), (0, 5000)):
                 cfgs.append({"history": h, "n": n, "mode": 0, "stride": 1, "seed": (seed * 31 + len(cfgs)) % (1 << 48), "env": {name: value}})
+    # the wall clock as the simulator's: frozen, coarse, jumping back (for code that reads it -
+    # nothing on the pinned tree does)
+    shim = clock_shim()
+    clock_runs = 0
+    if shim:
+        for mode in (("frozen", "coarse") if real_count < 500 else ("frozen", "coarse", "back")):
+            for h, n in (((14, 4000), (14, 20_000), (15, 5000)) if real_count < 500 else ((14, 4000), (14, 20_000), (14, 100_000), (15, 5000), (10, 5000), (0, 5000))):
+                cfgs.append({"history": h, "n": n, "mode": 0, "stride": 1, "seed": (seed * 37 + len(cfgs)) % (1 << 48), "env": {"LD_PRELOAD": shim, "VERIF_CLOCK_MODE": mode}})
+                clock_runs += 1
     t1 = time.time()
     with ThreadPoolExecutor(max_workers=workers()) as ex:
         results = list(ex.map(lambda cfg: real_run(binary, cfg), cfgs))
@@ -786,6 +813,7 @@ def check_c16(tier, seed):
             "(direction-agnostic) after every step under ties/spines. distinct_nontrivial = distinct final-tree digests of layer 1 + distinct (shape, pending-set) states of layer 2."
         ),
         "real_priority_process_runs": len(results),
+        "clock_seam": {"what": "cross-thread histories also run with CLOCK_REALTIME / gettimeofday / time answered by an LD_PRELOAD shim (sim/clockshim): frozen, coarse (10 ms every 4096 readings), and (thorough) jumping one hour back", "runs": clock_runs, "available": bool(shim)},
         "environment_knobs": {"what": "environment variables read by rlib_treap / rlib_rand through std::env::var with a literal name (static scan of the working tree); for each, cross-thread and plain histories are also run with the variable set to 1, 42, 0 and true", "found": knobs},
         "real_priority_distinct_configurations": len(config_keys),
         "real_priority_runs_by_history": by_history,
@@ -1269,6 +1297,8 @@ def cmd_setup():
         cargo_build("iosim", profile)
         cargo_build("treapsim", profile)
     cargo_build("mirisched", "sim-rel")
+    if clock_shim() is None:
+        log("setup: no C compiler - the clock seam of C16 will be skipped")
     rc, so, se = run(["cargo", "+nightly", "miri", "setup", "--offline"], cwd=SIM, timeout=3600)
     if rc != 0:
         sys.stderr.write(se[-3000:])
